@@ -6,6 +6,7 @@ package main
 
 import (
 	"fmt"
+	"math"
 	"runtime/debug"
 	"strconv"
 	"strings"
@@ -17,6 +18,7 @@ import (
 	"unsafe"
 
 	"github.com/hneemann/parser2"
+	"github.com/hneemann/parser2/funcGen"
 	"github.com/hneemann/parser2/value"
 )
 
@@ -225,10 +227,76 @@ func newInstance(spec cfgSpec) *instance {
 			}
 			return ast.String(), true
 		}
+	case "funcgen":
+		// the generic generator configured like example/minimal.go (float64) and example/bool.go: no list,
+		// map, method or closure handler, no string converter (bool: no number parser either)
+		var gen func(src string) (bool, error)
+		switch spec.table {
+		case "minimal":
+			fromBool := func(b bool) float64 {
+				if b {
+					return 1
+				}
+				return 0
+			}
+			g := funcGen.New[float64]().
+				AddConstant("pi", math.Pi).
+				AddSimpleOp("=", false, func(a, b float64) (float64, error) { return fromBool(a == b), nil }).
+				AddSimpleOp("<", false, func(a, b float64) (float64, error) { return fromBool(a < b), nil }).
+				AddSimpleOp(">", false, func(a, b float64) (float64, error) { return fromBool(a > b), nil }).
+				AddSimpleOp("+", true, func(a, b float64) (float64, error) { return a + b, nil }).
+				AddSimpleOp("-", false, func(a, b float64) (float64, error) { return a - b, nil }).
+				AddSimpleOp("*", true, func(a, b float64) (float64, error) { return a * b, nil }).
+				AddSimpleOp("/", false, func(a, b float64) (float64, error) { return a / b, nil }).
+				AddSimpleOp("^", false, func(a, b float64) (float64, error) { return math.Pow(a, b), nil }).
+				AddUnaryFunc("-", func(a float64) (float64, error) { return -a, nil }).
+				AddSimpleFunction("abs", math.Abs).
+				AddSimpleFunction("sqrt", math.Sqrt).
+				SetToBool(func(c float64) (bool, bool) { return c != 0, true }).
+				SetNumberParser(parser2.NumberParserFunc[float64](func(n string) (float64, error) { return strconv.ParseFloat(n, 64) }))
+			g.SetComfort(spec.comfort)
+			if spec.comments {
+				g.GetParser().AllowComments()
+			}
+			gen = func(src string) (bool, error) {
+				f, _, err := g.Generate(src, "a")
+				return f != nil, err
+			}
+		case "bool":
+			g := funcGen.New[bool]().
+				AddConstant("false", false).
+				AddConstant("true", true).
+				AddSimpleOp("^", true, func(a, b bool) (bool, error) { return a != b, nil }).
+				AddSimpleOp("=", true, func(a, b bool) (bool, error) { return a == b, nil }).
+				AddSimpleOp("|", true, func(a, b bool) (bool, error) { return a || b, nil }).
+				AddSimpleOp("&", true, func(a, b bool) (bool, error) { return a && b, nil }).
+				AddUnaryFunc("!", func(a bool) (bool, error) { return !a, nil }).
+				SetToBool(func(c bool) (bool, bool) { return c, true })
+			g.SetComfort(spec.comfort)
+			if spec.comments {
+				g.GetParser().AllowComments()
+			}
+			gen = func(src string) (bool, error) {
+				f, _, err := g.Generate(src, "a")
+				return f != nil, err
+			}
+		default:
+			panic("c04: unknown generic generator " + spec.table)
+		}
+		in.parse = func(src string) result {
+			ok, err := gen(src)
+			return result{ok: err == nil && ok, neither: err == nil && !ok, err: err}
+		}
+		in.astString = func(src string) (string, bool) { return "", false }
 	default:
 		panic("c04: unknown kind " + spec.kind)
 	}
 	return in
+}
+
+// genericGeneratorConfigs: funcGen.New[float64] / New[bool] without optional handlers, flags off and on.
+func genericGeneratorConfigs() []cfgSpec {
+	return append(flagSets("funcgen", "minimal", false), flagSets("funcgen", "bool", false)...)
 }
 
 // call runs the library on src; a panic on this goroutine is caught and returned.
@@ -426,7 +494,7 @@ func classifyShape(spec cfgSpec, src string) string {
 func errClass(kind string, err error) string {
 	s := err.Error()
 	phase := "parse"
-	if kind == "value" {
+	if kind == "value" || kind == "funcgen" {
 		if strings.HasPrefix(s, "error parsing expression: ") {
 			s = s[len("error parsing expression: "):]
 		} else {
